@@ -91,17 +91,20 @@ def extract(out_line, tmpl, wrap):
     return None
 
 
-def gen_history(rng, n, classes=None, pool_size=6, same_plain9=True):
+def gen_history(rng, n, classes=None, pool_size=6, same_plain9=True, nsalts=2, salt0=0, odd_names=False):
     """a run of secret-bearing lines: (template, wrap, secret, class)"""
     pool = []
     for _ in range(pool_size):
-        c = rng.choice(classes or list(L.ALL))
+        c = rng.choice(classes or list(L.ALLN))
         pool.append((L.gen_secret(rng, c), c))
     if same_plain9 and (classes is None or "jun9" in classes):
+        from .jun_checks import ref_encrypt
         p = "".join(rng.choice("ghijkmnopqrstuvwxyz") for _ in range(rng.randint(3, 9)))
-        for _ in range(2):
-            pool.append((L.gen_secret(rng, "jun9", plain=p), "jun9"))      # two $9$ encodings of one plaintext
+        for k in range(nsalts):                                             # $9$ encodings of one plaintext, salts cycled
+            pool.append((ref_encrypt(p, ALPHA[(salt0 + k) % 65]), "jun9"))
         pool.append((p, "text"))                                            # ... and the clear text itself
+    if odd_names:
+        pool.append(("netconanRemoved%d" % rng.randint(0, 3), "text"))      # a secret that looks like a pseudonym
     forms_by_class = {}
     for t, cs in L.FORMS:
         for c in cs:
@@ -132,7 +135,7 @@ def corr_scope(res, pid, rng, tier):
         cfg = fa.FaCfg(salt=SALTS[(r + res.seed) % len(SALTS)], pwd=True,
                        reserved=None if r % 3 else ["Someone", "RemoveMe"])
         t = fa.FaTwin(sess, cfg)
-        for h in gen_history(rng, 60 if tier == "thorough" else 35):
+        for h in gen_history(rng, 60 if tier == "thorough" else 35, pool_size=6 if r % 3 else 20, nsalts=4, salt0=4 * r, odd_names=(r % 2 == 0)):
             t.line(render(h))
             res.count("class_" + h[3])
         for tm in L.SCRUB_FORMS + L.AWS_FORMS:
@@ -227,8 +230,15 @@ def c08_scope(res, pid, rng, tier):
     rounds = 60 if tier == "thorough" else 14
     for r in range(rounds):
         cfg = fa.FaCfg(salt=SALTS[(r + res.seed) % len(SALTS)], pwd=True)
-        classes = None if r % 3 else ["text", "hex", "type7", "jun9", "md5"]
-        hist = gen_history(rng, 24 if (classes is None) else 40, classes=classes)
+        classes = None if r % 3 else ["text", "hex", "type7", "jun9", "md5", "numeric"]
+        big = (r % 4 == 1)
+        hist = gen_history(rng, 60 if big else (24 if (classes is None) else 40), classes=classes,
+                           pool_size=24 if big else 6, nsalts=6, salt0=6 * r, odd_names=True)
+        if big:
+            # many all-digit secrets late in a long run (two-digit indices)
+            nums = [L.gen_secret(rng, "numeric") for _ in range(14)]
+            for k in range(28):
+                hist.append((rng.choice(["set password {}", "isis password {}", "domain-password {}"]), "{}", nums[k % 14], "numeric"))
         lines = [render(h) for h in hist]
         try:
             outs, _ = run_lines(cfg, lines)
